@@ -66,6 +66,19 @@ def gen_zdir(rng: random.Random, opts: Optional[pg.GenOpts] = None, n_pages=None
                 break
     for rel in rels:
         z.pages[rel] = gen.page()
+    # a three-character ZID that extends another note's two-character ZID (240101#AB / 240101#ABc)
+    with_zid = [it for rel in rels for _b, it in pg.iter_items(z.pages[rel]) if it.zid]
+    two = [it for it in with_zid if len(it.zid) == 9]
+    if two and len(with_zid) >= 2 and rng.random() < 0.35:
+        a = rng.choice(two)
+        b = rng.choice([it for it in with_zid if it is not a])
+        cand = a.zid + rng.choice(pg.ZID_ALPHABET)
+        if cand not in opts.zid_registry:
+            opts.zid_registry.discard(b.zid)
+            opts.zid_registry.add(cand)
+            if b.mod is not None:
+                b.mod = None
+            b.zid = cand
     if cross_links and len(rels) > 0:
         # sprinkle links to real pages, ID/RID owners and references to them
         ids = []
